@@ -1,14 +1,1090 @@
-//! Suite `proxy` (stub: replaced by the owner of the suite).
+//! Suite `proxy` (C18): the built `varlink bridge` binary against harness-run services and a
+//! harness-run resolver, compared with direct connections to the same services.
+//!
+//! Case:
+//!   (proxy <mode> (services <world>*) (rtable (x<iface> x<address>*)*) <client> (session <item>*) <dec>)
+//!     mode    = resolver | bridge2 | (connect x<address or interface>) | (activate <k>) | (bridgecmd <k>)
+//!     world k listens on `unix:%D/s<k>.sock`; the resolver (interface org.varlink.resolver with the
+//!               given table; the j-th Resolve call answers address min(j, last) of the entry) on
+//!               `unix:%D/resolver.sock`, passed with `--resolver`
+//!     client  = pipelined | stepwise | closeearly
+//!     item    = (rq b<frame>) | (payload b<chunk>*)      payload: raw bytes after an upgrading request
+//!     dec     = what serde_json says about each frame (as in the wire suite)
+//!   (raceprobe <n>)   n sessions of one call whose service replies and immediately closes
+//!
+//! Observation:
+//!   (obs (bridged (out <reply>*) b<raw> <end>) (exit <code|sig<n>|timeout>)
+//!        (direct (<k> (out <reply>*) b<raw>)*) (log <-| (bridged (<k> <req>*)*) (direct (<k> <req>*)*)>)
+//!        (upseen b<bridged> b<direct>))        (log / upseen: `-` unless the mode is resolver or bridge2)
+//!     a payload is written in the same write as the requests only by a pipelined client in the modes
+//!     resolver / bridge2 (there the bridge forwards the upgrading request on its own); otherwise it
+//!     is sent once the reply to the upgrading request has arrived (the library's listen loop loses
+//!     bytes buffered behind an upgrading request, which is C02's business)
+//!     end = open (the bridge answered the sentinel call that the harness appends) | closed | timeout
+//!     `k` = index of the service, the resolver has index = number of services
+//!   (raceprobe lost|kept)
+//!
+//! The direct runs use one connection per service carrying the requests that a client would send
+//! to that service itself: the interface is looked up in the table (the i-th lookup of the session
+//! sees address min(i, last)), `GetInfo` goes to the resolver as `org.varlink.resolver.GetInfo`,
+//! whatever cannot be routed goes to service 0 (any service answers InterfaceNotFound /
+//! InvalidParameter for it).  In the modes connect/activate/bridgecmd everything goes to that service.
+use crate::rng::Rng;
+use crate::suites::addr::world::*;
+use crate::suites::addr::{fresh_dir, Subst};
+use crate::suites::wire;
 use crate::sx::{self, Sx};
 use crate::{Case, Ctx, Suite};
+use serde_json::{json, Value};
+use std::io::{Read, Write};
+use std::os::unix::io::AsRawFd;
+use std::process::{Command, Stdio};
+use std::sync::{Arc, Mutex};
+use std::time::{Duration, Instant};
 
 pub struct ProxySuite;
 
+pub const SENTINEL_IFACE: &str = "zz.sentinel";
+const STEP_WAIT: Duration = Duration::from_millis(1500);
+const EXIT_WAIT: Duration = Duration::from_millis(2500);
+
+fn resolver_world(table: &[(String, Vec<String>)]) -> WorldSpec {
+    WorldSpec {
+        svc: sx::tagged("svc", vec![sx::xs("R"), sx::xs("resolver"), sx::xs("1"), sx::xs("http://r/"), sx::list(vec![sx::atom("ifaces")])]),
+        resolver: Some(table.to_vec()),
+        up: false,
+    }
+}
+
+#[derive(Clone)]
+struct ProxyCase {
+    mode: Sx,
+    worlds: Vec<WorldSpec>,
+    rtable: Vec<(String, Vec<String>)>,
+    client: String,
+    frames: Vec<Vec<u8>>,
+    payload: Option<Vec<Vec<u8>>>,
+}
+
+fn parse_case(l: &[Sx]) -> ProxyCase {
+    let worlds = l[2].as_list().unwrap()[1..].iter().map(|w| WorldSpec::from_sx(w).expect("world")).collect();
+    let mut rtable = Vec::new();
+    for e in &l[3].as_list().unwrap()[1..] {
+        let e = e.as_list().unwrap();
+        rtable.push((e[0].as_str().unwrap(), e[1..].iter().map(|a| a.as_str().unwrap()).collect()));
+    }
+    let mut frames = Vec::new();
+    let mut payload = None;
+    for it in &l[5].as_list().unwrap()[1..] {
+        let it = it.as_list().unwrap();
+        match it[0].as_atom().unwrap() {
+            "rq" => frames.push(it[1].as_bytes().unwrap()),
+            "payload" => payload = Some(it[1..].iter().map(|c| c.as_bytes().unwrap()).collect()),
+            other => panic!("item {}", other),
+        }
+    }
+    ProxyCase { mode: l[1].clone(), worlds, rtable, client: l[4].as_atom().unwrap().to_string(), frames, payload }
+}
+
+// ---------------------------------------------------------------------------
+// the reference client's routing
+
+#[derive(Clone, Copy, PartialEq)]
+enum Target {
+    Svc(usize),
+    Resolver,
+}
+
+fn mode_tag(mode: &Sx) -> String {
+    match mode {
+        Sx::Atom(a) => a.clone(),
+        Sx::List(l) => l[0].as_atom().unwrap().to_string(),
+    }
+}
+
+fn service_address(sub: &Subst, k: usize) -> String {
+    format!("unix:{}/s{}.sock", sub.dir, k)
+}
+
+/// (target, frame to send) per request
+fn route_all(c: &ProxyCase, sub: &Subst) -> Vec<(Target, Vec<u8>)> {
+    let tag = mode_tag(&c.mode);
+    let fixed: Option<usize> = match tag.as_str() {
+        "activate" | "bridgecmd" => c.mode.as_list().unwrap()[1].as_usize(),
+        "connect" => {
+            let a = c.mode.as_list().unwrap()[1].as_str().unwrap();
+            if a.contains(':') {
+                (0..c.worlds.len()).find(|k| sub.apply(&a) == service_address(sub, *k))
+            } else {
+                c.rtable.iter().find(|e| e.0 == a).and_then(|e| e.1.first()).and_then(|a0| (0..c.worlds.len()).find(|k| sub.apply(a0) == service_address(sub, *k)))
+            }
+            .or(Some(0))
+        }
+        _ => None,
+    };
+    let mut lookups = 0usize;
+    let mut res = Vec::new();
+    for f in &c.frames {
+        if let Some(k) = fixed {
+            res.push((Target::Svc(k), f.clone()));
+            continue;
+        }
+        let v: Value = match serde_json::from_slice::<varlink::Request>(f) {
+            Ok(_) => serde_json::from_slice(f).unwrap_or(Value::Null),
+            Err(_) => {
+                res.push((Target::Svc(0), f.clone()));
+                continue;
+            }
+        };
+        let method = v["method"].as_str().unwrap_or("").to_string();
+        if method == "org.varlink.service.GetInfo" {
+            let mut v2 = v.clone();
+            v2["method"] = json!("org.varlink.resolver.GetInfo");
+            lookups += 1;
+            res.push((Target::Resolver, serde_json::to_vec(&v2).unwrap()));
+            continue;
+        }
+        let iface: Option<String> = match method.rfind('.') {
+            None => None,
+            Some(n) => {
+                if method == "org.varlink.service.GetInterfaceDescription" {
+                    match v.get("parameters") {
+                        Some(Value::Object(o)) => o.get("interface").and_then(|i| i.as_str()).map(|s| s.to_string()),
+                        Some(Value::Array(a)) if a.len() == 1 => a[0].as_str().map(|s| s.to_string()),
+                        _ => None,
+                    }
+                } else {
+                    Some(method[..n].to_string())
+                }
+            }
+        };
+        let t = match iface {
+            None => Target::Svc(0),
+            Some(i) => {
+                let k = lookups;
+                lookups += 1;
+                if i == "org.varlink.resolver" {
+                    Target::Resolver
+                } else {
+                    match c.rtable.iter().find(|e| e.0 == i) {
+                        Some(e) if !e.1.is_empty() => {
+                            let a = sub.apply(&e.1[std::cmp::min(k, e.1.len() - 1)]);
+                            match (0..c.worlds.len()).find(|k| a == service_address(sub, *k)) {
+                                Some(k) => Target::Svc(k),
+                                None => Target::Svc(0),
+                            }
+                        }
+                        _ => Target::Svc(0),
+                    }
+                }
+            }
+        };
+        res.push((t, f.clone()));
+    }
+    res
+}
+
+// ---------------------------------------------------------------------------
+// stdout collector
+
+struct Collector {
+    buf: Arc<Mutex<Vec<u8>>>,
+    eof: Arc<std::sync::atomic::AtomicBool>,
+}
+
+impl Collector {
+    fn start<R: Read + Send + 'static>(mut r: R) -> Collector {
+        let buf = Arc::new(Mutex::new(Vec::new()));
+        let eof = Arc::new(std::sync::atomic::AtomicBool::new(false));
+        let (b2, e2) = (buf.clone(), eof.clone());
+        std::thread::spawn(move || {
+            let mut tmp = [0u8; 8192];
+            loop {
+                match r.read(&mut tmp) {
+                    Ok(0) | Err(_) => break,
+                    Ok(n) => b2.lock().unwrap().extend_from_slice(&tmp[..n]),
+                }
+            }
+            e2.store(true, std::sync::atomic::Ordering::SeqCst);
+        });
+        Collector { buf, eof }
+    }
+    fn snapshot(&self) -> Vec<u8> {
+        self.buf.lock().unwrap().clone()
+    }
+    fn is_eof(&self) -> bool {
+        self.eof.load(std::sync::atomic::Ordering::SeqCst)
+    }
+    /// wait until `pred(buffer)` or EOF or the deadline; true = pred held
+    fn wait<F: Fn(&[u8]) -> bool>(&self, d: Duration, pred: F) -> bool {
+        let t0 = Instant::now();
+        loop {
+            if pred(&self.buf.lock().unwrap()) {
+                return true;
+            }
+            if self.is_eof() {
+                // one last look: the data may have arrived together with EOF
+                return pred(&self.buf.lock().unwrap());
+            }
+            if t0.elapsed() > d {
+                return false;
+            }
+            std::thread::sleep(Duration::from_millis(1));
+        }
+    }
+    /// wait until nothing new arrived for `quiet`
+    fn settle(&self, quiet: Duration, max: Duration) {
+        let t0 = Instant::now();
+        let mut last = self.buf.lock().unwrap().len();
+        let mut since = Instant::now();
+        loop {
+            std::thread::sleep(Duration::from_millis(2));
+            let n = self.buf.lock().unwrap().len();
+            if n != last {
+                last = n;
+                since = Instant::now();
+            }
+            if self.is_eof() || since.elapsed() > quiet || t0.elapsed() > max {
+                return;
+            }
+        }
+    }
+}
+
+fn nul_count(b: &[u8]) -> usize {
+    b.iter().filter(|x| **x == 0).count()
+}
+
+/// number of complete reply groups in `b`, given which requests were sent (`oneway`, `upgrade` flags)
+fn frame_flags(f: &[u8]) -> (bool, bool) {
+    match serde_json::from_slice::<varlink::Request>(f) {
+        Ok(r) => (r.oneway.unwrap_or(false), r.upgrade.unwrap_or(false)),
+        Err(_) => (false, false),
+    }
+}
+
+/// position just after the reply group that starts at `from` (replies until one without `continues`;
+/// exactly one reply when `single`); None when it is not complete yet
+fn group_end(b: &[u8], from: usize, single: bool) -> Option<usize> {
+    let mut pos = from;
+    loop {
+        let rel = b[pos..].iter().position(|x| *x == 0)?;
+        let piece = &b[pos..pos + rel];
+        pos += rel + 1;
+        if single {
+            return Some(pos);
+        }
+        let cont = serde_json::from_slice::<Value>(piece).ok().and_then(|v| v.get("continues").and_then(|c| c.as_bool())).unwrap_or(false);
+        if !cont {
+            return Some(pos);
+        }
+    }
+}
+
+fn sentinel_frame(nonce: &str) -> Vec<u8> {
+    serde_json::to_vec(&json!({"method": format!("{}.Run", SENTINEL_IFACE),
+        "parameters": {"script": [{"op": "reply", "p": {"sentinel": nonce}}], "token": "sentinel"}}))
+    .unwrap()
+}
+
+fn find_sub(h: &[u8], n: &[u8]) -> Option<usize> {
+    if n.is_empty() || h.len() < n.len() {
+        return None;
+    }
+    (0..=h.len() - n.len()).find(|i| &h[*i..*i + n.len()] == n)
+}
+
+/// cut the sentinel's reply (a whole NUL-terminated frame) out of the stream
+fn strip_sentinel(b: &[u8], nonce: &str) -> (Vec<u8>, bool) {
+    let needle = format!("\"sentinel\":\"{}\"", nonce);
+    match find_sub(b, needle.as_bytes()) {
+        None => (b.to_vec(), false),
+        Some(p) => {
+            let start = b[..p].iter().rposition(|x| *x == 0).map(|i| i + 1).unwrap_or(0);
+            let end = b[p..].iter().position(|x| *x == 0).map(|i| p + i + 1).unwrap_or(b.len());
+            let mut v = b[..start].to_vec();
+            v.extend_from_slice(&b[end..]);
+            (v, true)
+        }
+    }
+}
+
+struct SessionResult {
+    boundary: Option<usize>, // where the raw (upgraded) part of the output starts, when known
+    end: &'static str,       // open | closed | timeout
+}
+
+/// drive one session over (writer, collector): used for the bridge's stdio and for direct sockets
+fn drive<W: Write>(
+    w: &mut Option<W>,
+    coll: &Collector,
+    frames: &[Vec<u8>],
+    payload: &Option<Vec<Vec<u8>>>,
+    client: &str,
+    use_sentinel: bool,
+    pipeline_payload: bool,
+) -> SessionResult {
+    let nonce = format!("n{}", std::process::id());
+    let ends_upgraded = frames.last().map(|f| frame_flags(f).1).unwrap_or(false);
+    let write = |w: &mut Option<W>, b: &[u8]| {
+        if let Some(wr) = w.as_mut() {
+            let _ = wr.write_all(b);
+            let _ = wr.flush();
+        }
+    };
+    let mut boundary: Option<usize> = None; // where the raw part starts
+    let mut timed_out = false;
+    match client {
+        "stepwise" => {
+            let mut pos = 0usize;
+            for f in frames {
+                let mut m = f.clone();
+                m.push(0);
+                write(w, &m);
+                let (oneway, upgrade) = frame_flags(f);
+                if oneway {
+                    continue;
+                }
+                let p0 = pos;
+                let ok = coll.wait(STEP_WAIT, |b| group_end(b, p0, upgrade).is_some());
+                if !ok {
+                    timed_out = !coll.is_eof();
+                    break;
+                }
+                pos = group_end(&coll.snapshot(), p0, upgrade).unwrap();
+            }
+            if ends_upgraded && !timed_out && !coll.is_eof() {
+                boundary = Some(pos);
+                if let Some(chunks) = payload {
+                    let mut sent = 0usize;
+                    for c in chunks {
+                        write(w, c);
+                        sent += c.len();
+                        // the echo service answers byte for byte
+                        let want = pos + sent;
+                        coll.wait(Duration::from_millis(400), |b| b.len() >= want);
+                    }
+                }
+            }
+        }
+        _ => {
+            // pipelined / closeearly: everything in one write
+            let mut all = Vec::new();
+            for f in frames {
+                all.extend_from_slice(f);
+                all.push(0);
+            }
+            if pipeline_payload {
+                if let Some(chunks) = payload {
+                    for c in chunks {
+                        all.extend_from_slice(c);
+                    }
+                }
+            }
+            if use_sentinel && !ends_upgraded && client != "closeearly" {
+                all.extend_from_slice(&sentinel_frame(&nonce));
+                all.push(0);
+            }
+            write(w, &all);
+        }
+    }
+    if client == "closeearly" {
+        *w = None; // close right after the last request
+        let t0 = Instant::now();
+        while !coll.is_eof() && t0.elapsed() < STEP_WAIT {
+            std::thread::sleep(Duration::from_millis(1));
+        }
+        return SessionResult { boundary: None, end: if coll.is_eof() { "closed" } else { "timeout" } };
+    }
+    let end;
+    if ends_upgraded {
+        if client != "stepwise" && !pipeline_payload {
+            // requests pipelined, but the payload only once the upgrade is acknowledged
+            let want = frames.iter().filter(|f| !frame_flags(f).0).count();
+            if coll.wait(STEP_WAIT, |b| nul_count(b) >= want) {
+                let b = coll.snapshot();
+                let mut pos = 0usize;
+                for _ in 0..want {
+                    pos += b[pos..].iter().position(|x| *x == 0).unwrap() + 1;
+                }
+                boundary = Some(pos);
+                if let Some(chunks) = payload {
+                    let mut sent = 0usize;
+                    for c in chunks {
+                        write(w, c);
+                        sent += c.len();
+                        let want_len = pos + sent;
+                        coll.wait(Duration::from_millis(400), |b| b.len() >= want_len);
+                    }
+                }
+            } else {
+                timed_out = !coll.is_eof();
+            }
+        }
+        // no sentinel possible: wait for quiescence
+        coll.settle(Duration::from_millis(150), STEP_WAIT);
+        end = if timed_out {
+            "timeout"
+        } else if coll.is_eof() {
+            "closed"
+        } else {
+            "open"
+        };
+        let b = coll.snapshot();
+        if boundary.is_none() && client != "stepwise" {
+            // pipelined: the replies before the upgrade are single (the generator guarantees it)
+            let want = frames.iter().filter(|f| !frame_flags(f).0).count();
+            let mut pos = 0usize;
+            let mut n = 0;
+            while n < want {
+                match b[pos..].iter().position(|x| *x == 0) {
+                    Some(i) => {
+                        pos += i + 1;
+                        n += 1;
+                    }
+                    None => break,
+                }
+            }
+            if n == want {
+                boundary = Some(pos);
+            }
+        }
+        return SessionResult { boundary, end };
+    }
+    if client == "stepwise" && use_sentinel && !timed_out {
+        let mut m = sentinel_frame(&nonce);
+        m.push(0);
+        write(w, &m);
+    }
+    let needle = format!("\"sentinel\":\"{}\"", nonce);
+    let seen = if use_sentinel && !timed_out {
+        coll.wait(STEP_WAIT, |b| find_sub(b, needle.as_bytes()).map(|p| b[p..].contains(&0)).unwrap_or(false))
+    } else {
+        false
+    };
+    let (_, found) = strip_sentinel(&coll.snapshot(), &nonce);
+    end = if found && seen {
+        "open"
+    } else if coll.is_eof() {
+        "closed"
+    } else {
+        "timeout"
+    };
+    SessionResult { boundary: None, end }
+}
+
+// ---------------------------------------------------------------------------
+
+fn exit_sx(st: Option<std::process::ExitStatus>) -> Sx {
+    use std::os::unix::process::ExitStatusExt;
+    match st {
+        None => sx::atom("timeout"),
+        Some(s) => match (s.code(), s.signal()) {
+            (Some(c), _) => sx::int(c as i64),
+            (None, Some(sig)) => sx::atom(format!("sig{}", sig)),
+            _ => sx::atom("unknown"),
+        },
+    }
+}
+
+fn log_sx(h: &ServiceHandle, from: usize) -> (Vec<Sx>, usize) {
+    let calls = h.calls.lock().unwrap();
+    let mut v = Vec::new();
+    for c in calls.iter().skip(from) {
+        let l = c.as_list().unwrap();
+        if l[0].as_str().as_deref() == Some(SENTINEL_IFACE) {
+            continue;
+        }
+        v.push(l[2].clone());
+    }
+    // a oneway call travels on its own connection and may be executed after the call that follows
+    // it: the log is compared as a multiset
+    v.sort_by(|a, b| a.render().as_bytes().cmp(b.render().as_bytes()));
+    (v, calls.len())
+}
+
+fn settle_logs(handles: &[ServiceHandle]) {
+    let total = |hs: &[ServiceHandle]| -> usize { hs.iter().map(|h| h.calls.lock().unwrap().len() + h.up_seen.lock().unwrap().len()).sum() };
+    let mut last = total(handles);
+    let mut since = Instant::now();
+    let t0 = Instant::now();
+    loop {
+        std::thread::sleep(Duration::from_millis(3));
+        let n = total(handles);
+        if n != last {
+            last = n;
+            since = Instant::now();
+        }
+        if since.elapsed() > Duration::from_millis(40) || t0.elapsed() > Duration::from_millis(500) {
+            return;
+        }
+    }
+}
+
+struct DirectRun {
+    out: Vec<u8>,
+    raw: Vec<u8>,
+}
+
+/// one direct connection: the frames, then (after the replies are in) the payload, then half-close
+fn direct_run(address: &str, frames: &[Vec<u8>], payload: &Option<Vec<Vec<u8>>>) -> Option<DirectRun> {
+    let mut stream = connect_retry(address, Duration::from_secs(2))?;
+    let (r, mut w) = stream.split().ok()?;
+    let coll = Collector::start(r);
+    let raw_fd = stream.as_raw_fd();
+    let ends_upgraded = frames.last().map(|f| frame_flags(f).1).unwrap_or(false);
+    let mut all = Vec::new();
+    for f in frames {
+        all.extend_from_slice(f);
+        all.push(0);
+    }
+    let _ = w.write_all(&all);
+    let _ = w.flush();
+    let mut boundary = None;
+    if ends_upgraded {
+        // wait for the reply groups, then send the payload (never pipelined behind the upgrade:
+        // the listen loop of the library drops bytes it has buffered at that point)
+        let mut pos = 0usize;
+        let mut ok = true;
+        for f in frames {
+            let (oneway, upgrade) = frame_flags(f);
+            if oneway {
+                continue;
+            }
+            let p0 = pos;
+            if !coll.wait(STEP_WAIT, |b| group_end(b, p0, upgrade).is_some()) {
+                ok = false;
+                break;
+            }
+            pos = group_end(&coll.snapshot(), p0, upgrade).unwrap();
+        }
+        if ok {
+            boundary = Some(pos);
+            if let Some(chunks) = payload {
+                let mut sent = 0;
+                for c in chunks {
+                    let _ = w.write_all(c);
+                    let _ = w.flush();
+                    sent += c.len();
+                    let want = pos + sent;
+                    coll.wait(Duration::from_millis(400), |b| b.len() >= want);
+                }
+            }
+        }
+    }
+    unsafe {
+        libc::shutdown(raw_fd, libc::SHUT_WR);
+    }
+    let t0 = Instant::now();
+    while !coll.is_eof() && t0.elapsed() < Duration::from_secs(4) {
+        std::thread::sleep(Duration::from_millis(1));
+    }
+    let b = coll.snapshot();
+    let cut = boundary.unwrap_or(b.len());
+    Some(DirectRun { out: b[..cut].to_vec(), raw: b[cut..].to_vec() })
+}
+
+fn run_proxy(ctx: &Ctx, l: &[Sx]) -> Sx {
+    let c = parse_case(l);
+    let sub = Subst::new(ctx, "b");
+    let tag = mode_tag(&c.mode);
+    let helper = helper_path();
+    let cli = varlink_cli_path();
+
+    // the world
+    let table: Vec<(String, Vec<String>)> = c.rtable.iter().map(|(i, a)| (i.clone(), a.iter().map(|x| sub.apply(x)).collect())).collect();
+    let resolver_addr = format!("unix:{}/resolver.sock", sub.dir);
+    let mut handles: Vec<ServiceHandle> = Vec::new();
+    for (k, w) in c.worlds.iter().enumerate() {
+        handles.push(spawn_service(w, &service_address(&sub, k)));
+    }
+    let resolver = spawn_service(&resolver_world(&table), &resolver_addr);
+    for (k, w) in c.worlds.iter().enumerate() {
+        std::fs::write(format!("{}/spec{}", sub.dir, k), w.to_sx().render() + "\n").unwrap();
+    }
+
+    // the bridge
+    let mut cmd = Command::new(&cli);
+    cmd.arg("-R").arg(&resolver_addr);
+    let mut extra_pid_files: Vec<String> = Vec::new();
+    match tag.as_str() {
+        "resolver" => {
+            cmd.arg("bridge");
+        }
+        "bridge2" => {
+            cmd.arg("-b").arg(format!("exec {} -R {} bridge", cli, resolver_addr)).arg("bridge");
+        }
+        "connect" => {
+            let a = sub.apply(&c.mode.as_list().unwrap()[1].as_str().unwrap());
+            cmd.arg("bridge").arg("--connect").arg(a);
+        }
+        "activate" => {
+            let k = c.mode.as_list().unwrap()[1].as_usize().unwrap();
+            let dump = format!("{}/dump{}.json", sub.dir, k);
+            cmd.arg("-A").arg(format!("{} serve {}/spec{} $VARLINK_ADDRESS --idle 3 --dump {}", helper, sub.dir, k, dump)).arg("bridge");
+            extra_pid_files.push(dump);
+        }
+        "bridgecmd" => {
+            let k = c.mode.as_list().unwrap()[1].as_usize().unwrap();
+            let dump = format!("{}/dump{}.json", sub.dir, k);
+            cmd.arg("-b").arg(format!("exec {} stdio {}/spec{} --dump {}", helper, sub.dir, k, dump)).arg("bridge");
+            extra_pid_files.push(dump);
+        }
+        other => panic!("mode {}", other),
+    }
+    cmd.env_remove("RUST_BACKTRACE");
+    cmd.stdin(Stdio::piped()).stdout(Stdio::piped()).stderr(Stdio::null());
+    let mut child = cmd.spawn().expect("spawn varlink");
+    let mut stdin = child.stdin.take();
+    let coll = Collector::start(child.stdout.take().unwrap());
+    let mut guard = ChildGuard::new(child);
+
+    let direct_mode = tag == "connect" || tag == "activate" || tag == "bridgecmd";
+    let pipeline_payload = c.client == "pipelined" && (tag == "resolver" || tag == "bridge2");
+    let res = drive(&mut stdin, &coll, &c.frames, &c.payload, &c.client, true, pipeline_payload);
+    // the client closes its side
+    drop(stdin);
+    let st = guard.wait_timeout(EXIT_WAIT);
+    // grandchildren (the activated / bridge-command service) are not killed by anybody else
+    for f in &extra_pid_files {
+        if let Some(d) = read_dump(f, Duration::from_millis(if st.is_some() { 50 } else { 500 })) {
+            if let Some(p) = d["pid"].as_i64() {
+                guard.extra_pids.push(p as i32);
+            }
+        }
+    }
+    let exit = exit_sx(st);
+    if st.is_some() {
+        // everything the bridge wrote before it exited
+        let t0 = Instant::now();
+        while !coll.is_eof() && t0.elapsed() < Duration::from_millis(500) {
+            std::thread::sleep(Duration::from_millis(1));
+        }
+    }
+    drop(guard);
+
+    // the final output (after exit more may have arrived), cut at the boundary found during the session
+    let (bridged_out, bridged_raw) = {
+        let nonce = format!("n{}", std::process::id());
+        let (b, _) = strip_sentinel(&coll.snapshot(), &nonce);
+        let cut = std::cmp::min(res.boundary.unwrap_or(b.len()), b.len());
+        (b[..cut].to_vec(), b[cut..].to_vec())
+    };
+
+    // what the services saw through the bridge
+    settle_logs(&handles);
+    let mut marks = Vec::new();
+    let mut blog = Vec::new();
+    for (k, h) in handles.iter().enumerate() {
+        let (v, n) = log_sx(h, 0);
+        marks.push(n);
+        if !v.is_empty() {
+            let mut e = vec![sx::nat(k)];
+            e.extend(v);
+            blog.push(sx::list(e));
+        }
+    }
+    let up_bridged: Vec<u8> = handles.iter().flat_map(|h| h.up_seen.lock().unwrap().clone()).collect();
+    let up_marks: Vec<usize> = handles.iter().map(|h| h.up_seen.lock().unwrap().len()).collect();
+
+    // the direct runs
+    let routes = route_all(&c, &sub);
+    let nsvc = c.worlds.len();
+    let mut direct = Vec::new();
+    for t in 0..=nsvc {
+        let target = if t == nsvc { Target::Resolver } else { Target::Svc(t) };
+        let mine: Vec<Vec<u8>> = routes.iter().filter(|r| r.0 == target).map(|r| r.1.clone()).collect();
+        if mine.is_empty() {
+            continue;
+        }
+        let address = if t == nsvc { resolver_addr.clone() } else { service_address(&sub, t) };
+        // the payload belongs to the service the last (upgrading) request goes to
+        let pl = if routes.last().map(|r| r.0 == target).unwrap_or(false) { c.payload.clone() } else { None };
+        let r = direct_run(&address, &mine, &pl);
+        direct.push(match r {
+            Some(d) => sx::list(vec![sx::nat(t), sx::tagged("out", wire::split_replies(&d.out)), sx::bs(&d.raw)]),
+            None => sx::list(vec![sx::nat(t), sx::tagged("fail", vec![]), sx::bs(&[])]),
+        });
+    }
+    settle_logs(&handles);
+    let mut dlog = Vec::new();
+    for (k, h) in handles.iter().enumerate() {
+        let (v, _) = log_sx(h, marks[k]);
+        if !v.is_empty() {
+            let mut e = vec![sx::nat(k)];
+            e.extend(v);
+            dlog.push(sx::list(e));
+        }
+    }
+    let up_direct: Vec<u8> = handles.iter().enumerate().flat_map(|(k, h)| h.up_seen.lock().unwrap()[up_marks[k]..].to_vec()).collect();
+
+    let log = if direct_mode {
+        sx::atom("-") // the service behind -A / -b is another process
+    } else {
+        sx::tagged("log", vec![sx::tagged("bridged", blog), sx::tagged("direct", dlog)])
+    };
+    let upseen = if direct_mode {
+        sx::tagged("upseen", vec![sx::atom("-"), sx::atom("-")])
+    } else {
+        sx::tagged("upseen", vec![sx::bs(&up_bridged), sx::bs(&up_direct)])
+    };
+    drop(handles);
+    drop(resolver);
+    let _ = std::fs::remove_dir_all(&sub.dir);
+    let panicked = matches!(&exit, Sx::Atom(a) if a == "101");
+    sx::tagged(
+        "obs",
+        vec![
+            if panicked {
+                // the main thread died while the copy threads were running: what got through is a race
+                sx::tagged("bridged", vec![sx::atom("panicked")])
+            } else {
+                sx::tagged("bridged", vec![sx::tagged("out", wire::split_replies(&bridged_out)), sx::bs(&bridged_raw), sx::atom(res.end)])
+            },
+            sx::tagged("exit", vec![exit]),
+            sx::tagged("direct", direct),
+            log,
+            upseen,
+        ],
+    )
+}
+
+fn run_raceprobe(ctx: &Ctx, l: &[Sx]) -> Sx {
+    let n = l[1].as_usize().unwrap();
+    let sub = Subst::new(ctx, "r");
+    let w = WorldSpec { svc: wire::svc_cfg("race", &[], false).sx, resolver: None, up: true };
+    let addr = service_address(&sub, 0);
+    let h = spawn_service(&w, &addr);
+    let table = vec![("org.example.abort".to_string(), vec![addr.clone()])];
+    let resolver_addr = format!("unix:{}/resolver.sock", sub.dir);
+    let r = spawn_service(&resolver_world(&table), &resolver_addr);
+    let mut lost = 0;
+    for i in 0..n {
+        let mut child = Command::new(varlink_cli_path())
+            .arg("-R")
+            .arg(&resolver_addr)
+            .arg("bridge")
+            .stdin(Stdio::piped())
+            .stdout(Stdio::piped())
+            .stderr(Stdio::null())
+            .spawn()
+            .expect("spawn varlink");
+        let mut stdin = child.stdin.take();
+        let coll = Collector::start(child.stdout.take().unwrap());
+        let mut guard = ChildGuard::new(child);
+        let mut f = serde_json::to_vec(&json!({"method":"org.example.abort.ReplyThenAbort","parameters":{"delay_ms":0,"token":format!("p{}", i)}})).unwrap();
+        f.push(0);
+        if let Some(s) = stdin.as_mut() {
+            let _ = s.write_all(&f);
+            let _ = s.flush();
+        }
+        coll.wait(Duration::from_millis(800), |b| b.contains(&0));
+        drop(stdin);
+        let _ = guard.wait_timeout(Duration::from_millis(800));
+        if !coll.snapshot().contains(&0) {
+            lost += 1;
+        }
+    }
+    drop(h);
+    drop(r);
+    let _ = std::fs::remove_dir_all(&sub.dir);
+    sx::tagged("raceprobe", vec![sx::atom(if lost > 0 { "lost" } else { "kept" })])
+}
+
+// ---------------------------------------------------------------------------
+// generators
+
+fn with_sentinel(cfg: &wire::SvcCfg) -> Sx {
+    // append the sentinel interface to a wire service configuration
+    let l = cfg.sx.as_list().unwrap();
+    let mut ifaces = l[5].as_list().unwrap().to_vec();
+    ifaces.insert(1, sx::tagged("script", vec![sx::xs(SENTINEL_IFACE), sx::xs("sentinel")]));
+    sx::list(vec![l[0].clone(), l[1].clone(), l[2].clone(), l[3].clone(), l[4].clone(), sx::list(ifaces)])
+}
+
+struct GenWorld {
+    worlds: Vec<WorldSpec>,
+    rtable: Vec<(String, Vec<String>)>,
+    /// (interface, service index) of the script interfaces that can be called
+    scripts: Vec<(String, usize)>,
+    gen_at: Option<usize>,
+}
+
+fn gen_world(rng: &mut Rng) -> GenWorld {
+    // service 0: scripted A + vtest + up/abort; service 1: scripted B (+ shared prefix names); service 2 optional
+    let c0 = wire::svc_cfg("w0", &[("org.example.a", "interface org.example.a\nmethod Run() -> ()\n"), ("a.b", "desc a.b")], true);
+    let c1 = wire::svc_cfg("w1", &[("org.example.b", "desc b"), ("a.b.c", "desc a.b.c")], false);
+    let c2 = wire::svc_cfg("w2", &[("x.y1", "desc x.y1")], false);
+    let n = if rng.chance(1, 3) { 3 } else { 2 };
+    let cfgs = [c0, c1, c2];
+    let mut worlds = Vec::new();
+    let mut rtable: Vec<(String, Vec<String>)> = Vec::new();
+    let mut scripts = Vec::new();
+    for k in 0..n {
+        worlds.push(WorldSpec { svc: with_sentinel(&cfgs[k]), resolver: None, up: k == 0 });
+        for s in &cfgs[k].scripts {
+            rtable.push((s.clone(), vec![format!("unix:%D/s{}.sock", k)]));
+            scripts.push((s.clone(), k));
+        }
+    }
+    rtable.push(("org.example.vtest".into(), vec!["unix:%D/s0.sock".into()]));
+    rtable.push(("org.example.up".into(), vec!["unix:%D/s0.sock".into()]));
+    rtable.push(("org.example.abort".into(), vec!["unix:%D/s0.sock".into()]));
+    rtable.push((SENTINEL_IFACE.into(), vec!["unix:%D/s0.sock".into()]));
+    rtable.push(("org.example.dead".into(), vec!["unix:%D/dead.sock".into()]));
+    rtable.push(("org.example.badaddr".into(), vec!["bogus:%D/x".into()]));
+    GenWorld { worlds, rtable, scripts, gen_at: Some(0) }
+}
+
+fn mk_case(mode: Sx, gw: &GenWorld, client: &str, frames: &[Vec<u8>], payload: Option<&[Vec<u8>]>) -> Sx {
+    let mut ws = vec![sx::atom("services")];
+    ws.extend(gw.worlds.iter().map(|w| w.to_sx()));
+    let mut rt = vec![sx::atom("rtable")];
+    for (i, a) in &gw.rtable {
+        let mut e = vec![sx::xs(i)];
+        e.extend(a.iter().map(|x| sx::xs(x)));
+        rt.push(sx::list(e));
+    }
+    let mut items = vec![sx::atom("session")];
+    let mut total = Vec::new();
+    for f in frames {
+        items.push(sx::tagged("rq", vec![sx::bs(f)]));
+        total.extend_from_slice(f);
+        total.push(0);
+    }
+    if let Some(p) = payload {
+        let mut l = vec![sx::atom("payload")];
+        l.extend(p.iter().map(|c| sx::bs(c)));
+        items.push(sx::list(l));
+    }
+    sx::tagged("proxy", vec![mode, sx::list(ws), sx::list(rt), sx::atom(client), sx::list(items), wire::dec_table(&total)])
+}
+
+/// a request that a *proper* service answers deterministically (continues* + final, or nothing when
+/// oneway) and that keeps the connection open — the hypotheses of C18_transparent_partial
+fn gen_good_request(rng: &mut Rng, gw: &GenWorld, tok: &str, tags: &mut Vec<String>) -> Vec<u8> {
+    let p = |i: usize| json!({"token": tok, "i": i});
+    let mut v: Value;
+    match rng.range(1, 11) {
+        1 => {
+            tags.push("req:getdesc".into());
+            let names: Vec<String> = gw.scripts.iter().map(|s| s.0.clone()).chain(std::iter::once("org.example.vtest".to_string())).collect();
+            let n = rng.pick(&names).clone();
+            v = if rng.chance(1, 4) {
+                json!({"method":"org.varlink.service.GetInterfaceDescription","parameters":[n]})
+            } else {
+                json!({"method":"org.varlink.service.GetInterfaceDescription","parameters":{"interface":n,"extra":tok}})
+            };
+        }
+        2 => {
+            tags.push("req:gen".into());
+            let m = *rng.pick(&["Echo", "Stream", "Fail", "Opt", "NoArgs", "Missing"]);
+            v = json!({"method": format!("org.example.vtest.{}", m), "parameters": {"token": tok, "n": rng.below(4)}});
+            if m == "Stream" && rng.chance(2, 3) {
+                v["more"] = json!(true);
+            }
+        }
+        3 => {
+            tags.push("req:script-nx".into());
+            let s = rng.pick(&gw.scripts);
+            v = json!({"method": format!("{}.Nx{}", s.0, tok)});
+        }
+        4 => {
+            tags.push("req:script-err".into());
+            let s = rng.pick(&gw.scripts);
+            v = json!({"method": format!("{}.Run", s.0), "parameters": {"script": [{"op":"err","name":"org.example.Custom","p":p(0)}], "token": tok}});
+        }
+        5 | 6 => {
+            tags.push("req:script-stream".into());
+            let s = rng.pick(&gw.scripts);
+            let k = rng.below(4);
+            let mut sc = vec![json!({"op":"cont","v":true})];
+            for i in 0..k {
+                sc.push(json!({"op":"reply","p":p(i)}));
+            }
+            sc.push(json!({"op":"cont","v":false}));
+            sc.push(json!({"op":"reply","p":p(k)}));
+            v = json!({"method": format!("{}.Run", s.0), "more": true, "parameters": {"script": sc, "token": tok}});
+        }
+        7 => {
+            tags.push("req:script-oneway".into());
+            let s = rng.pick(&gw.scripts);
+            v = json!({"method": format!("{}.Run", s.0), "oneway": true, "parameters": {"script": [{"op":"reply","p":p(0)}], "token": tok}});
+        }
+        8 => {
+            tags.push("req:svc-unknown-method".into());
+            // an unknown method of a *resolvable* interface
+            let s = rng.pick(&gw.scripts);
+            v = json!({"method": format!("{}.Nxq{}", s.0, tok), "parameters": {"token": tok}});
+        }
+        _ => {
+            tags.push("req:script".into());
+            let s = rng.pick(&gw.scripts);
+            v = json!({"method": format!("{}.Run", s.0), "parameters": {"script": [{"op":"reply","p":p(0)}], "token": tok}});
+            if rng.chance(1, 6) {
+                v["more"] = json!(false);
+            }
+            if rng.chance(1, 8) {
+                v["oneway"] = json!(false);
+            }
+        }
+    }
+    if rng.chance(1, 10) {
+        serde_json::to_vec_pretty(&v).unwrap()
+    } else {
+        serde_json::to_vec(&v).unwrap()
+    }
+}
+
+/// requests outside the hypotheses (one class each)
+fn gen_hard_request(rng: &mut Rng, gw: &GenWorld, tok: &str, tags: &mut Vec<String>) -> Vec<u8> {
+    let v = match rng.below(9) {
+        8 => {
+            // with `--resolver <other address>` the bridge still asks the compiled-in address
+            tags.push("hard:getinfo".into());
+            json!({"method":"org.varlink.service.GetInfo"})
+        }
+        0 => {
+            tags.push("hard:unknown-interface".into());
+            json!({"method": format!("no.such{}.M", tok), "parameters": {"token": tok}})
+        }
+        1 => {
+            tags.push("hard:nodot".into());
+            json!({"method": format!("nodot{}", tok)})
+        }
+        2 => {
+            tags.push("hard:unreachable".into());
+            json!({"method": format!("org.example.{}.M", rng.pick(&["dead", "badaddr"]))})
+        }
+        3 => {
+            tags.push("hard:getdesc-noparams".into());
+            json!({"method":"org.varlink.service.GetInterfaceDescription"})
+        }
+        4 => {
+            tags.push("hard:getdesc-illtyped".into());
+            json!({"method":"org.varlink.service.GetInterfaceDescription","parameters":{"interface":5}})
+        }
+        5 => {
+            tags.push("hard:abort-silent".into());
+            json!({"method":"org.example.abort.Silent"})
+        }
+        6 => {
+            tags.push("hard:abort-delayed".into());
+            json!({"method":"org.example.abort.ReplyThenAbort","parameters":{"delay_ms":60,"token":tok}})
+        }
+        _ => {
+            tags.push("hard:getdesc-unknown".into());
+            json!({"method":"org.varlink.service.GetInterfaceDescription","parameters":{"interface":format!("no.such.{}", tok)}})
+        }
+    };
+    let _ = gw;
+    serde_json::to_vec(&v).unwrap()
+}
+
+fn up_frame() -> Vec<u8> {
+    serde_json::to_vec(&json!({"method":"org.example.up.Start","upgrade":true})).unwrap()
+}
+
+fn gen_payload(rng: &mut Rng) -> Vec<Vec<u8>> {
+    let n = rng.range(1, 3);
+    (0..n)
+        .map(|_| {
+            let len = rng.range(1, 40);
+            (0..len).map(|_| rng.below(256) as u8).collect()
+        })
+        .collect()
+}
+
 impl Suite for ProxySuite {
-    fn generate(&self, _ctx: &Ctx) -> Vec<Case> {
-        Vec::new()
+    fn generate(&self, ctx: &Ctx) -> Vec<Case> {
+        let mut rng = Rng::new(ctx.seed ^ 0xb41d6e);
+        let mut cases = Vec::new();
+        if let Ok(txt) = std::fs::read_to_string(concat!(env!("CARGO_MANIFEST_DIR"), "/corpus/proxy.txt")) {
+            for l in txt.lines() {
+                if let Some(s) = sx::parse(l) {
+                    cases.push(Case { input: s, tags: vec!["corpus".into()] });
+                }
+            }
+        }
+        let n = if ctx.thorough { 1500 } else { 260 };
+        let mut tok = 0usize;
+        for _ in 0..n {
+            let gw = gen_world(&mut rng);
+            let mut tags: Vec<String> = Vec::new();
+            let mode = match rng.below(10) {
+                0..=5 => sx::atom("resolver"),
+                6 => sx::tagged("activate", vec![sx::nat(rng.below(gw.worlds.len()))]),
+                7 => sx::tagged("bridgecmd", vec![sx::nat(rng.below(gw.worlds.len()))]),
+                8 => sx::atom("bridge2"),
+                _ => sx::tagged("connect", vec![sx::xs(if rng.chance(1, 2) { "unix:%D/s0.sock" } else { "org.example.b" })]),
+            };
+            let mtag = mode_tag(&mode);
+            tags.push(format!("mode:{}", mtag));
+            let mut client = *rng.pick(&["pipelined", "pipelined", "stepwise", "stepwise", "closeearly"]);
+            let len = match rng.below(8) {
+                0 => 0,
+                1..=2 => 1,
+                3..=5 => rng.range(2, 5),
+                _ => rng.range(6, if ctx.thorough { 30 } else { 12 }),
+            };
+            // the inner bridge of `bridge2` exits early on a hard request and its last replies race
+            // with the hang-up in the outer pump: only good requests there
+            let hard_at = if mtag != "bridge2" && rng.chance(1, 4) && len > 0 { rng.below(len) } else { usize::MAX };
+            let mut frames = Vec::new();
+            for i in 0..len {
+                tok += 1;
+                let t = format!("k{}z", tok);
+                if i == hard_at {
+                    let f = gen_hard_request(&mut rng, &gw, &t, &mut tags);
+                    // behind a byte pump a service that closes the connection must not have replies in
+                    // flight (the pump drops data that arrives together with the hang-up)
+                    let closing = tags.iter().any(|t| t == "hard:abort-silent" || t == "hard:abort-delayed" || t == "hard:getdesc-illtyped");
+                    if closing && (mtag == "activate" || mtag == "bridgecmd") && client == "pipelined" {
+                        client = "stepwise";
+                    }
+                    frames.push(f);
+                } else {
+                    frames.push(gen_good_request(&mut rng, &gw, &t, &mut tags));
+                }
+            }
+            tags.push(format!("client:{}", client));
+            // upgraded sessions: single-reply requests first, then the upgrade, then a payload
+            let mut payload = None;
+            let up_possible = match &mode {
+                Sx::List(l) if mtag == "activate" || mtag == "bridgecmd" => l[1].as_usize() == Some(0),
+                _ => true,
+            };
+            if hard_at == usize::MAX && client != "closeearly" && up_possible && rng.chance(1, 5) {
+                frames.retain(|f| {
+                    let (o, _) = frame_flags(f);
+                    let more = serde_json::from_slice::<varlink::Request>(f).ok().and_then(|r| r.more).unwrap_or(false);
+                    !o && !more
+                });
+                frames.truncate(3);
+                frames.push(up_frame());
+                payload = Some(gen_payload(&mut rng));
+                tags.push("upgrade".into());
+                tags.push(format!("upgrade:{}", client));
+            }
+            tags.push(format!("len:{}", match frames.len() { 0 => "0", 1 => "1", 2..=5 => "2-5", _ => "6+" }));
+            tags.sort();
+            tags.dedup();
+            cases.push(Case { input: mk_case(mode, &gw, client, &frames, payload.as_deref()), tags });
+        }
+        cases
     }
-    fn run(&self, _ctx: &Ctx, _input: &Sx) -> Sx {
-        sx::atom("stub")
+
+    fn run(&self, ctx: &Ctx, input: &Sx) -> Sx {
+        let l = input.as_list().expect("case");
+        match l[0].as_atom().unwrap_or("") {
+            "proxy" => run_proxy(ctx, l),
+            "raceprobe" => run_raceprobe(ctx, l),
+            other => panic!("case kind {}", other),
+        }
     }
+}
+
+#[allow(dead_code)]
+fn unused(_: &Ctx) {
+    let _ = fresh_dir;
 }
